@@ -67,7 +67,7 @@ Method(o, m, args) == N("method", m, StrV(Code(m)), <<o, args>>)
 MemberN(o, m) == N("member", m, StrV(Code(m)), <<o>>)
 Compr(kind, val, id, what, le, cond) == N("compr", kind, Null, <<val, id, what, le, cond>>)
 Index(c, i) == N("index", "", Null, <<c, i>>)
-Compr2(form, kind, val, id1, l1, id2, l2, cond) == N("compr2", form, Null, <<kind, val, id1, l1, id2, l2, cond>>)
+Compr2(form, kind, val, id1, w1, l1, id2, w2, l2, cond) == N("compr2", form, Null, <<kind, val, id1, w1, l1, id2, w2, l2, cond>>)
 Prog(stmts) == Do(stmts)                        \* rendered as a bare top-level block
 
 -----------------------------------------------------------------------------
@@ -124,9 +124,16 @@ E2Build(p) ==
 E3Params == { <<"e3", i1, i2, ic, jf>> : i1 \in Idx(LoopFirst), i2 \in Idx(InnerSecond), ic \in SmallCatch, jf \in SmallFin }
 E3Build(p) == InCtx(3, Blk(<<LoopFirst[p[2]], InnerSecond[p[3]]>>, Catches[p[4]], Fins[p[5]]))
 
-ErrQuick == E1Params({1}, Idx(Catches), Idx(Fins)) \cup E1Params({2}, SmallCatch, SmallFin)
+\* <<"e4", ctx, j1, j2, jc, jf, oc, of>>: the inner block is the ONLY statement of the outer one
+E4Params(ctxs) == { <<"e4", ctx, j1, j2, jc, jf, oc, of>> :
+                      ctx \in ctxs, j1 \in Idx(InnerFirst), j2 \in Idx(InnerSecond),
+                      jc \in SmallCatch, jf \in {1, 2, 3}, oc \in SmallCatch \cup {5}, of \in {1, 2} }
+E4Build(p) == InCtx(p[2], Blk(<<Blk(<<InnerFirst[p[3]], InnerSecond[p[4]]>>, Catches[p[5]], Fins[p[6]])>>,
+                              Catches[p[7]], Fins[p[8]]))
+
+ErrQuick == E4Params({1}) \cup E1Params({1}, Idx(Catches), Idx(Fins)) \cup E1Params({2}, SmallCatch, SmallFin)
             \cup E3Params \cup { p \in E2Params({1}) : p[8] \in {1, 2} /\ p[10] = 1 }
-ErrThorough == E1Params({1, 2, 3}, Idx(Catches), Idx(Fins)) \cup E3Params \cup E2Params({1, 2, 3})
+ErrThorough == E4Params({1, 2, 3}) \cup E1Params({1, 2, 3}, Idx(Catches), Idx(Fins)) \cup E3Params \cup E2Params({1, 2, 3})
 
 (* ---- C04: loops, exits, ladders, comprehensions ---- *)
 L123 == ListN(<<I(1), I(2), I(3)>>)
@@ -218,10 +225,16 @@ McBuild(p) == Prog(<<Log(Compr("map", N("kv", "", Null, <<Var("x"), Bin("*", Var
 
 \* <<"c2", form, kind, l1, l2, c>>: product and `also for` comprehensions
 C2Forms == << "product", "parallel" >>
-C2Lists == << ListN(<<I(1), I(2)>>), ListN(<<I(10), I(20), I(30)>>), SetN(<<I(3), I(1)>>), ListN(<< >>), Lit(StrV(<<97, 98>>)) >>
+\* sources as <<what, collection>>: lists, a set, the empty list, a string, and maps by keys / values / entries / default
+M2a == MapN(<< <<I(2), I(20)>>, <<I(1), I(30)>> >>)
+M2b == MapN(<< <<I(7), I(5)>>, <<I(6), I(9)>> >>)
+C2Lists == << <<"", ListN(<<I(1), I(2)>>)>>, <<"", ListN(<<I(10), I(20), I(30)>>)>>, <<"", SetN(<<I(3), I(1)>>)>>,
+              <<"", ListN(<< >>)>>, <<"", Lit(StrV(<<97, 98>>))>>,
+              <<"keys", M2a>>, <<"values", M2a>>, <<"values", M2b>>, <<"entries", M2b>>, <<"", M2a>> >>
 C2Conds == << None, Bin("!=", Var("x"), Var("y")) >>
 C2Params == { <<"c2", f, k, l1, l2, c>> : f \in Idx(C2Forms), k \in Idx(CKinds), l1 \in Idx(C2Lists), l2 \in Idx(C2Lists), c \in Idx(C2Conds) }
-C2Build(p) == Prog(<<Log(Compr2(C2Forms[p[2]], CKinds[p[3]], ListN(<<Var("x"), Var("y")>>), "x", C2Lists[p[4]], "y", C2Lists[p[5]], C2Conds[p[6]]))>>)
+C2Build(p) == Prog(<<Log(Compr2(C2Forms[p[2]], CKinds[p[3]], ListN(<<Var("x"), Var("y")>>),
+                                "x", C2Lists[p[4]][1], C2Lists[p[4]][2], "y", C2Lists[p[5]][1], C2Lists[p[5]][2], C2Conds[p[6]]))>>)
 \* <<"l4", where, ex, fin>>: exits through do/finally inside nested loops and
 \* from a loop in a function called inside a loop
 L4Ex == << Brk, Cont, Ret(I(8)), ErrN(S("a")), Log(I(0)) >>
@@ -305,7 +318,9 @@ Sig == << <<Param("a"), Param("b")>>,
           <<Param("a"), ParamD("b", I(7))>>,
           <<Param("a"), ParamD("b", Bin("+", Var("a"), Var("k")))>>,
           <<Param("a"), ParamD("b", I(7)), ParamR("rest...")>>,
-          <<ParamD("a", I(5)), ParamR("rest...")>> >>
+          <<ParamD("a", I(5)), ParamR("rest...")>>,
+          <<Param("a"), Param("b"), ParamD("c", I(0))>>,
+          <<Param("a"), Param("b"), Param("c"), ParamR("rest...")>> >>
 ArgLists == << << >>, <<Arg(I(1))>>, <<Arg(I(1)), Arg(I(2))>>, <<Arg(I(1)), Arg(I(2)), Arg(I(3))>>,
                <<NArg("b", I(2)), NArg("a", I(1))>>, <<Arg(I(1)), NArg("b", I(2))>>,
                <<NArg("b", I(2)), Arg(I(1))>>, <<NArg("a", I(1)), Arg(I(2))>>, <<NArg("c", I(3))>>,
@@ -313,7 +328,13 @@ ArgLists == << << >>, <<Arg(I(1))>>, <<Arg(I(1)), Arg(I(2))>>, <<Arg(I(1)), Arg(
                <<Arg(I(0)), Spread(ListN(<<I(1), I(2)>>))>>,
                <<Spread(MapN(<< <<S("b"), I(2)>>, <<S("a"), I(1)>> >>))>>,
                <<Spread(MapN(<< <<S("b"), I(2)>> >>)), NArg("a", I(1))>>,
-               <<Spread(Var("t"))>> >>            \* t is the set <<2, 1>>
+               <<Spread(Var("t"))>>,              \* t is the set <<2, 1>>
+               <<Arg(I(7)), NArg("a", I(1)), NArg("b", I(2))>>,
+               <<Arg(I(7)), Arg(I(8)), NArg("a", I(1)), NArg("b", I(2))>>,
+               <<Arg(I(7)), NArg("b", I(2)), NArg("c", I(3))>>,
+               <<Arg(I(7)), Arg(I(8)), Arg(I(9)), NArg("b", I(2))>>,
+               <<Arg(I(7)), Spread(MapN(<< <<S("a"), I(1)>>, <<S("b"), I(2)>> >>))>>,
+               <<Spread(ListN(<<I(7), I(8)>>)), NArg("a", I(1)), NArg("c", I(3))>> >>
 BodyOf(sig) == ListN([i \in 1..Len(sig) |-> Var(sig[i].name)])
 A1Params == { <<"a1", sg, al>> : sg \in Idx(Sig), al \in Idx(ArgLists) }
 A1Build(p) == Prog(<<Def("k", I(100)), Def("t", SetN(<<I(2), I(1)>>)),
@@ -383,7 +404,7 @@ S6Params == { <<"s6", k>> : k \in Idx(S6Progs) }
 ScopeParams == S6Params \cup S1Params \cup S2Params \cup S3Params \cup S4Params \cup S5Params \cup A1Params \cup A2Params \cup A3Params
 
 Build(p) ==
-  CASE p[1] = "e1" -> E1Build(p) [] p[1] = "e2" -> E2Build(p) [] p[1] = "e3" -> E3Build(p)
+  CASE p[1] = "e4" -> E4Build(p) [] p[1] = "e1" -> E1Build(p) [] p[1] = "e2" -> E2Build(p) [] p[1] = "e3" -> E3Build(p)
     [] p[1] = "l1" -> L1Build(p) [] p[1] = "l0" -> L0Build(p) [] p[1] = "l2" -> L2Build(p)
     [] p[1] = "l3" -> L3Progs[p[2]] [] p[1] = "w1" -> W1Build(p) [] p[1] = "if" -> IfBuild(p)
     [] p[1] = "c2" -> C2Build(p) [] p[1] = "l4" -> L4Build(p) [] p[1] = "l5" -> L5Progs[p[2]]
